@@ -224,7 +224,7 @@ def oracle_c23(ctx, budget_s):
                 for l in f["levels"]:
                     l["w"] = ctx.rng.choice([1, 2, 2, 3])
         return d
-    for case in gen_cases(ctx, budget_s, max_trials=5, gen_fn=gen):
+    for case in gen_cases(ctx, budget_s, max_trials=5, gen_fn=gen, prefer=OD.has_weights):
         got = OD.check_exhaust(ctx, case, "IterateSATGen", "C23")
         ctx.count("C23.weighted")
         tw = _twin(case.desc)
@@ -274,14 +274,15 @@ def oracle_c24(ctx, budget_s):
     ctx.rules.append("C24 oracle: both sides of each documented equivalence are built from fresh objects and exhausted "
                      "with IterateSATGen; the multisets of sequences must be equal: MultiCrossBlock vs Merge of "
                      "CrossBlocks (all modes/alignments), Repeat(b, cs) vs Merge([b], cs, REPEAT, EQUAL_PREAMBLE), "
-                     "Repeat(b, []) and Merge([b]) vs b, CrossBlock vs MultiCrossBlock(..., [crossing], mode=WEIGHT)")
+                     "Repeat(b, []) and Merge([b]) vs b (also with the library's default mode/alignment and b a Repeat or a "
+                     "REPEAT-mode MultiCrossBlock), CrossBlock vs MultiCrossBlock(..., [crossing], mode=WEIGHT)")
     g = D.Gen(rng, max_trials=5)
     t_end = ctx.elapsed() + budget_s
     while ctx.elapsed() < t_end:
         leaf = O.gen_leaf(g, small=True, want_derived=rng.choice([0, 0, 1]), kinds=["AtMostKInARow", "Pin", "ExactlyK", "MinimumTrials"])
         b = leaf["block"]
         fs = OD._fmap(leaf)
-        law = rng.choice(["repeat-merge", "repeat-nil", "merge-single", "cross-multicross", "multicross-merge"])
+        law = rng.choice(["repeat-merge", "repeat-nil", "merge-single", "cross-multicross", "multicross-merge", "merge-default"])
         F = leaf["factors"]
         if law == "repeat-merge":
             cs = [{"k": "MinimumTrials", "n": O.leaf_trials(leaf) * rng.choice([1, 2])}] if not any(
@@ -294,6 +295,22 @@ def oracle_c24(ctx, budget_s):
         elif law == "merge-single":
             lhs = {"factors": F, "block": {"k": "merge", "bs": [b], "cs": [], "mode": "repeat", "align": None}}
             rhs = leaf
+        elif law == "merge-default":
+            # Merge([X]) with the library's default mode / alignment, X a leaf, a Repeat with whole repetitions, or a
+            # REPEAT-mode MultiCrossBlock: the documented meaning is X itself
+            simple = [f["id"] for f in F if f["window"] is None]
+            shape = rng.choice(["leaf", "repeat", "multicross"])
+            if shape == "repeat" and not any(f["window"] is not None and f["id"] in b["crossing"] for f in F):
+                x = {"k": "repeat", "b": dict(b, cs=[c for c in b["cs"] if c["k"] != "MinimumTrials"]),
+                     "cs": [{"k": "MinimumTrials", "n": O.leaf_trials(leaf) * 2}]}
+            elif shape == "multicross" and len(simple) >= 2:
+                x = {"k": "multicross", "design": b["design"], "crossings": [[simple[0]], [simple[1]]],
+                     "cs": [c for c in b["cs"] if c["k"] != "MinimumTrials"], "rcc": b["rcc"], "mode": "repeat",
+                     "align": rng.choice(["equal preamble", "parallel start"])}
+            else:
+                x = b
+            lhs = {"factors": F, "block": {"k": "merge", "bs": [x], "cs": [], "mode": "repeat", "align": None, "defaults": True}}
+            rhs = {"factors": F, "block": x}
         elif law == "cross-multicross":
             lhs = leaf
             rhs = {"factors": F, "block": {"k": "multicross", "design": b["design"], "crossings": [b["crossing"]], "cs": b["cs"],
@@ -392,6 +409,27 @@ def oracle_c25(ctx, budget_s):
             return
         if all(isinstance(r[0], int) for r in res) and res[0][0] != res[1][0]:
             report(ctx, "nest", res[0][1], "Nest(Nest(a,b),c) has %d trials, Nest(a,Nest(b,c)) %d" % (res[0][0], res[1][0]))
+            return
+    # corpus Nests (constraints on either block, MinimumTrials on the Nest, incomplete outer crossing): trial count by
+    # the documented arithmetic, every returned sequence valid, exhausted set = valid set
+    for desc in O.corpus_designs(ctx.big()):
+        if ctx.elapsed() > t_end - budget_s * 0.4:
+            break
+        if "nest" not in OD.block_kinds(desc["block"]):
+            continue
+        case = O.Case(ctx, desc)
+        if not case.build():
+            continue
+        case.regs = OD.regions(desc, case.geo)
+        ctx.count("C25.corpus")
+        n_impl = case.built.block.trials_per_sample()
+        if case.geo and case.geo.get("error") is None and case.geo["n"] != n_impl:
+            report(ctx, "trialcount", case, "Nest reports %d trials, the documented arithmetic (outer trials x inner length) gives %d" % (
+                n_impl, case.geo["n"]), None, known_for(case.regs, "C25", "trialcount"))
+        OD.check_sound(ctx, case, "IterateSATGen", 6, "C25")
+        OD.check_exhaust(ctx, case, "IterateSATGen", "C25")
+        ctx.case(("C25", "corpus", json.dumps(desc, sort_keys=True)), True)
+        if ctx.failures:
             return
     while ctx.elapsed() < t_end:
         lo = O.gen_leaf(g, fid0=0, small=True, want_derived=0, kinds=["Pin", "ExactlyK"], allow_weights=False)
@@ -600,6 +638,27 @@ def oracle_c29(ctx, budget_s):
                 _c29_judge(ctx, c, r)
                 if ctx.failures:
                     return
+    # a preamble trial (Transition in the crossing) together with a WithinTrial factor that SMGen has to fill in
+    # itself (crossed, or the argument of the crossed Transition): more sequences per call, the preamble row is random
+    col, siz = O._sf(0, ["r", "g"]), O._sf(1, ["big", "small"])
+    eq = [0] * 9
+    eq[4] = eq[8] = 1
+    mt = {"id": 2, "name": "f2", "window": {"deps": [0, 1], "width": 1, "stride": 1, "start": None, "kind": "within"},
+          "levels": [{"name": "same", "w": 1, "table": eq}, {"name": "diff", "w": 1, "table": [1 - x for x in eq]}]}
+    pre_cases = []
+    for crossing, trdep in (([2, 3], 0), ([1, 3], 0), ([3], 2)):
+        tr = O._transition(3, trdep, 2)
+        dsc = {"factors": [col, siz, mt, tr], "block": {"k": "cross", "design": [0, 1, 2, 3], "crossing": crossing, "rcc": True, "cs": []}}
+        c = O.Case(ctx, dsc)
+        if c.build():
+            c.regs = OD.regions(dsc, c.geo)
+            pre_cases.append(c)
+    res = O.synth_sequence([{"desc": c.desc, "n": 12, "strategy": "SMGen"} for c in pre_cases], timeout=90)
+    ctx.count("C29.preamble-within")
+    for c, r in (zip(pre_cases, res) if res is not None else []):
+        _c29_judge(ctx, c, r)
+        if ctx.failures:
+            return
     batch = []
     def flush():
         """run the collected designs one after the other in ONE child process (SMGen keeps module-level state)"""
@@ -832,7 +891,9 @@ def oracle_c18_blocks(ctx, budget_s):
                      "random sequence of constructions (Nest twice, Repeat, Merge, a second CrossBlock); every block "
                      "must have the trial count and exhausted set of the same expression built from fresh objects")
     t_end = ctx.elapsed() + budget_s
+    it = 0
     while ctx.elapsed() < t_end:
+        it += 1
         o = O._sf(0, ["o1", "o2", "o3"][:rng.choice([2, 2, 3])])
         i1 = O._sf(10, ["i1", "i2", "i3"][:rng.choice([2, 3])])
         u = O._sf(11, ["u", "v"])
@@ -841,16 +902,34 @@ def oracle_c18_blocks(ctx, budget_s):
         outer = {"k": "cross", "design": [0], "crossing": [0], "rcc": True, "cs": ocs, "obj": "outer"}
         inner = {"k": "cross", "design": [10, 11], "crossing": [10], "rcc": True, "cs": [], "obj": "inner"}
         factors = [o, i1, u]
+        nest_align = None
+        if it <= 2 or rng.random() < 0.3:
+            # an outer block with a preamble: a Transition factor in its crossing (its variables are numbered by the
+            # trials it applies to, which depends on the block's sustain count)
+            o = O._sf(0, ["o1", "o2"])
+            tr = O._transition(3, 0, 2)
+            outer = {"k": "cross", "design": [0, 3], "crossing": [0, 3], "rcc": True, "cs": [], "obj": "outer"}
+            inner = {"k": "cross", "design": [10], "crossing": [10], "rcc": True, "cs": [], "obj": "inner"}
+            i1 = O._sf(10, ["i1", "i2"])
+            factors = [o, tr, i1]
+            nest_align = "post preamble"
+            ocs = []
+            ctx.count("C18.block-histories.preamble")
         exprs = [
-            {"k": "nest", "outer": outer, "inner": inner, "cs": [], "align": None},
-            {"k": "nest", "outer": outer, "inner": inner, "cs": [], "align": None},
-            {"k": "cross", "design": [0], "crossing": [0], "rcc": True, "cs": [mt]},
+            {"k": "nest", "outer": outer, "inner": inner, "cs": [], "align": nest_align},
+            outer,
+            {"k": "nest", "outer": outer, "inner": inner, "cs": [], "align": nest_align},
+            {"k": "cross", "design": outer["design"], "crossing": outer["crossing"], "rcc": True, "cs": [mt] if nest_align is None else []},
             {"k": "repeat", "b": outer, "cs": []},
             {"k": "merge", "bs": [outer], "cs": [], "mode": "repeat", "align": None},
         ]
         order = [exprs[j] for j in rng.sample(range(len(exprs)), rng.randint(2, 4))]
         if not any(e["k"] == "nest" for e in order):
             order.insert(0, exprs[0])
+        if it == 1:
+            order = [exprs[0], exprs[1]]          # the Nest first, then the block it was made from
+        elif it == 2:
+            order = [exprs[1], exprs[0]]
         built = D.Built()
         desc0 = {"factors": factors}
         for f in factors:
